@@ -243,13 +243,13 @@ def compositions(words):
     return out
 
 
-def big_record(rng, schema, max_list, big_strings):
-    """A random record with long lists (and, rarely, a 70 kB string) - beyond the TLC bounds."""
+def big_record(rng, schema, max_list, big_strings, force_big=False):
+    """A random record with long lists (and, rarely or when forced, 70 kB strings) - beyond the TLC bounds."""
     def val(n):
         def base():
             if n["typ"] == "group":
                 return [val(k) for k in n["kids"]]
-            if n["typ"] == "string" and big_strings and rng.random() < 0.02:
+            if n["typ"] == "string" and big_strings and (force_big or rng.random() < 0.02):
                 return 999
             return rng.randrange(0, 16)
         if n["rep"] == "req":
@@ -292,7 +292,8 @@ def c01():
         for b in range(2 if q else 6):
             nrec = ck.rng.choice([9, 17, 64, 130] if q else [9, 64, 257, 1000, 3000])
             page = ck.rng.choice([1, 7, 8, 9, 64, 1000])
-            rr = [big_record(ck.rng, p.schema, 40 if q else 300, b == 0) for _ in range(nrec)]
+            rr = [big_record(ck.rng, p.schema, 40 if q else 300, b == 0, force_big=(b == 0 and i in (0, nrec // 2)))
+                  for i in range(nrec)]     # two records carry a 70 kB string in every string slot
             cut = sorted(ck.rng.sample(range(1, nrec), min(2, nrec - 1)))
             hist = "a" * cut[0] + "w" + "a" * (cut[1] - cut[0]) + "w" + "a" * (nrec - cut[1]) + "w"
             p.cases.append({"page": page, "codec": CODECS[b % 3], "poff": ck.rng.randrange(16), "ops": ops_of(hist, rr), "light": True,
@@ -819,7 +820,7 @@ def report_bits(ck, prop, events, verdicts, what_fn):
         ck.report(key, "+".join(conjs), {"event": e, "conjuncts": conjs})
 
 
-BOUNDARY_RUNS = [1, 2, 7, 8, 9, 15, 16, 17, 63, 64, 65, 496, 503, 504, 505, 511, 512, 513, 520, 1016, 8191, 8192]
+BOUNDARY_RUNS = [1, 2, 3, 4, 5, 6, 7, 8, 9, 10, 11, 12, 13, 14, 15, 16, 17, 23, 24, 25, 63, 64, 65, 496, 503, 504, 505, 511, 512, 513, 520, 1016, 8191, 8192]
 
 
 def c07():
@@ -850,7 +851,7 @@ def c07():
     vectors = export_bits("vectors")
     ops = [{"op": "mirror", "vectors": vectors}]
     # ---- encoder side, through the public column API
-    bounds = {1: 14, 2: 7, 3: 5, 4: 4} if q else {1: 20, 2: 10, 3: 7, 4: 5}
+    bounds = {1: 16, 2: 8, 3: 6, 4: 4} if q else {1: 20, 2: 10, 3: 7, 4: 5}
     for w, n in bounds.items():
         for kind in ("def", "rep"):
             if kind == "rep" and w > 2 and q:
@@ -859,8 +860,12 @@ def c07():
             ops.append({"op": "encall", "w": w, "kind": kind, "minlen": 1, "maxlen": n if kind == "def" else max(1, n - 2),
                         "sample": max(1, total // (400 if q else 1500))})
     for w in (1, 2, 3, 4):
-        ops.append({"op": "encruns", "w": w, "kind": "def", "count": 300 if q else 4000, "seed": ck.seed * 10 + w, "nruns": 4, "runlens": BOUNDARY_RUNS,
+        ops.append({"op": "encruns", "w": w, "kind": "def", "count": 1500 if q else 12000, "seed": ck.seed * 10 + w, "nruns": 5, "runlens": BOUNDARY_RUNS,
                     "sample": 10 if q else 40})
+    for w in (1, 2, 3, 4):
+        for kind in ("def", "rep"):
+            ops.append({"op": "encgrid", "w": w, "kind": kind, "maxlen": 17 if q else 33, "nruns": 26 if q else 70,
+                        "runlens": [63, 64, 65, 496, 503, 504, 505, 512, 513], "sample": 1500 if q else 4000})
     # ---- decoder side: every segmentation of every short sequence (TLC), random long ones
     segcases = []
     for w, n in ((1, 6 if q else 8), (2, 3 if q else 4), (3, 2), (4, 2)):
@@ -1342,14 +1347,14 @@ def c13():
         cyc = rec_cycle(recs[p.key]["recs"], ck.seed + pi)
         pick = scheds2 if q and len(scheds2) <= 400 else ck.rng.sample(scheds2, min(len(scheds2), 400 if q else 3000))
         for si, sch in enumerate(pick):
-            kinds = ("w", "w") if si % 5 else ("w", "r")
+            kinds = [("w", "w"), ("w", "w"), ("w", "r"), ("w", "w"), ("r", "r"), ("w", "w"), ("r", "w")][si % 7]
             insts = [inst(p, cyc, kinds[0], CODECS[si % 3], 2, 4), inst(p, cyc, kinds[1], CODECS[(si // 3) % 3], 3, 5)]
-            if kinds[1] == "r":   # a reader makes thousands of source calls: stretch its segments
-                sch = [[i, n * (60 if i == 2 else 1)] for i, n in sch]
+            # a reader makes thousands of source calls: stretch its segments
+            sch = [[i, n * (60 if kinds[i - 1] == "r" else 1)] for i, n in sch]
             p.cases.append({"page": 2, "codec": "snappy", "poff": 0, "ops": [], "sched": {"insts": insts, "schedule": sch, "prior": "dirty" if si % 2 else "clean"}})
             ck.add("evaluations")
             if len(sch) >= 2:
-                distinct.add((p.key, json.dumps(sch), kinds, si % 2))
+                distinct.add((p.key, json.dumps(sch), tuple(kinds), si % 2))
         for si, sch in enumerate(scheds3[:: max(1, len(scheds3) // 300)] if scheds3 else []):
             insts = [inst(p, cyc, "w", CODECS[(si + k) % 3], 2, 4) for k in range(3)]
             p.cases.append({"page": 2, "codec": "snappy", "poff": 0, "ops": [], "sched": {"insts": insts, "schedule": sch, "prior": "dirty"}})
